@@ -316,7 +316,7 @@ proof fn lemma_to_lr(m: Seq<(u32, u32)>, r: Seq<LineRange>)
 //#end
 
 // ---------------------------------------------------------------- the attestation containers and upsert_file_attestation
-pub struct AuthorshipMetadata { pub _opaque: () }   // stand-in: never inspected by the verified text
+#[verifier::external_body] pub struct AuthorshipMetadata { _o: () }   // stand-in: never inspected by the verified text
 //#item file=src/authorship/authorship_log_serialization.rs kind=struct name=AttestationEntry
 pub struct AttestationEntry {
     pub hash: String,
